@@ -125,7 +125,18 @@ theorem uncovered_identity_stmt {σ} (f : Xf σ) (sch : Schema) (s : Stmt) (st :
         split
         · rfl
         · rw [xfRows_unconfigured f t he]; rfl
-    simp [xfStmt, hx]
+    have hs : xfInsertStmt f sch i st = some (i, st) := by
+      unfold xfInsertStmt
+      cases ht : sch.table i.table with
+      | none => rfl
+      | some t =>
+        have he := h i.table rfl t ht
+        have hr : (if i.fromSelect then some (i, st) else xfInsert f sch i st) = some (i, st) := by
+          split
+          · rfl
+          · exact hx
+        simp only [hr, Option.bind_some, xfSets_unconfigured f t he, Option.map_some]
+    simp [xfStmt, hs]
   | update u =>
     have hx : xfUpdate f sch u st = some (u, st) := by
       unfold xfUpdate
@@ -135,7 +146,12 @@ theorem uncovered_identity_stmt {σ} (f : Xf σ) (sch : Schema) (s : Stmt) (st :
         have he := h u.table rfl t ht
         simp only
         rw [xfSets_unconfigured f t he]; rfl
-    simp [xfStmt, hx]
+    have hs : xfUpdateStmt f sch u st = some (u, st) := by
+      unfold xfUpdateStmt
+      split
+      · rfl
+      · exact hx
+    simp [xfStmt, hs]
   | select s => rfl
   | other n => rfl
 
